@@ -35,6 +35,23 @@ func checkC20(c *Ctx) Meta {
 	c.Rule("C20-TARGET", "api.getBindingTarget is operation-for-operation the chain library's GetBindingTarget (or calls it); v1 passes (compressed public key, default proof type, bit length), v2 (plot id, chia proof type, k); the listed address derives from the same workspace's key; every returned target depends on all three parameters", 5)
 	c.Rule("C20-EXACT", "no floating-point value occurs in AmountToString/StringToAmount or anything they call", 2)
 
+	// ---- RENDER: totals and fee of a rendered transaction cover every output
+	c.Rule("C20-RENDER", "a rendered transaction is complete or refused: in the functions that list a transaction's outputs and inputs every error of a step (script disassembly, address extraction, amount conversion) ends the rendering with a non-nil error — an output that is skipped drops out of the total the fee is computed from, and a well-formed but wrong amount is shown", 2)
+	{
+		var scope []*ssa.Function
+		for _, name := range []string{"(*Server).createVoutList", "(*Server).createVinList", "createVoutList", "createVinList"} {
+			if f := c.Fn("api", name); f != nil {
+				scope = append(scope, bodyFns(f, nil)...)
+			}
+		}
+		if len(scope) == 0 {
+			c.Bad("C20-RENDER", "anchor", "", "reason=anchor-missing: createVoutList / createVinList in package api")
+		} else {
+			runErrflow(c, errflowCfg{rule: "C20-RENDER", scope: scope,
+				classK: func(fn *ssa.Function, call *ssa.Call) bool { return true },
+				strict: func(fn *ssa.Function, call *ssa.Call) bool { return true }})
+		}
+	}
 	// ---- GATE
 	if run := c.MustFn("C20-GATE", "api", "Run"); run != nil {
 		ls := callsIn(run, "net/http.ListenAndServe")
